@@ -73,7 +73,21 @@ the framework as it stood when the wave was produced):
   generics with a hidden parameter in the graph corpus; entry-point mixes in C13; the naming branches of
   `format_field` in C09).
 
-With the final framework every re-runnable change is caught (`.build/partrial_final2.log`: own check +
+* **wave 5** (all 17 properties; the sub-agents were additionally given one line per earlier change for
+  their property and told to find *different* mechanisms - a deliberately adversarial held-out
+  measurement): 23 of 34 caught at first evaluation, 11 by the property's own check; 10 missed and one
+  (C13-w5m1) ended in a machinery error instead of a verdict. What the misses needed: a single-variant
+  enum with a union payload flattened next to other fields (C02); a quoted name ending in `\` inside a
+  lone flattened `( .. ) & ( .. )` (C04); a shared file whose extension is not `.ts` (C05 - its clause is
+  C03's "never imports from itself"); a type parameter no emitted field mentions (C07); directories that
+  differ in case only, a file named `x.d.ts` (C08); a struct `tag` that needs escaping in the `serde`
+  spelling only (C10); `Weak<T>` under `optional_fields` (C12); a second, unannounced acquisition of the
+  registry lock (C13: hook H4, see 0.2a); doc text with `format!` placeholders on a type-overridden field,
+  an unpaired quote inside twice-flattened enums (C15). All closed by extending the respective families
+  (and by H4 / treating ill-formed references as violations); the sub-agents' side observations led to
+  findings F28, F29.
+
+With the final framework every re-runnable change is caught (`seeded/final_run2.log` for waves 1-4, `seeded/final_run3.log` for wave 5: own check +
 every check that ever reported the change, re-run on the final tree) and no check ended in a machinery
 error. Changes caught only by neighbouring checks are those where the change, as it manifests, does not
 violate the target property's own clause (e.g. C13-m1 after its port is deterministic but leaves import
@@ -89,7 +103,8 @@ dependency breaks imports (C03), the file set (C11) and the parse of the importi
 Side findings reported by the sub-agents on the unchanged tree (all reproduced by the machinery after
 the alphabets were extended, then repaired): F20 (unbalanced parentheses), F21 (doc text starting with
 `/`), F22 (object merge rewriting doc text), F26 (parentheses inside documentation counted by the
-unwrapping scan), F27 (`.js` stripped from import paths without `import-esm`).
+unwrapping scan), F27 (`.js` stripped from import paths without `import-esm`), F28 (`optional_fields` with a
+type-parameter field), F29 (`bound` dropping the declared where clause).
 
 Bold = the property's own check.
 
